@@ -169,6 +169,28 @@ func TestVerifHTTPProxyRoundTrip(t *testing.T) {
 				if rerr != nil || !bytes.Equal(got, stored) {
 					rec.Violation("C12", "httpproxy.get-differs", fmt.Sprintf("%s: Get returned %d bytes (err %v), want %d", sig, len(got), rerr, len(stored)), nil)
 				}
+				if kind == cache.CAS {
+					continue
+				}
+				// AC and RAW keys are not content addressed: a second accepted upload under the same key
+				// carries a new value, which the back end (and so every peer) must end up with
+				data2 := rng.Bytes(n + 1 + rng.Intn(50))
+				p.Put(ctx, kind, hash, int64(len(data2)), int64(len(data2)), io.NopCloser(bytes.NewReader(data2)))
+				replaced := false
+				for i := 0; i < 300; i++ {
+					st.mu.Lock()
+					b := st.m[want]
+					st.mu.Unlock()
+					if bytes.Equal(b, data2) {
+						replaced = true
+						break
+					}
+					time.Sleep(10 * time.Millisecond)
+				}
+				rec.Count(fmt.Sprintf("overwrite.forwarded=%v", replaced))
+				if !replaced {
+					rec.Violation("C12", "httpproxy.overwrite-not-forwarded", fmt.Sprintf("%s: a second upload under the same %s key (new value, %d bytes) was accepted but never handed to the back end, which still holds the first value (%d bytes): peers read the stale value", sig, kind.String(), len(data2), n), map[string]interface{}{"kind": kind.String(), "mode": mode, "first": n, "second": len(data2)})
+				}
 			}
 		}
 	}
